@@ -83,6 +83,11 @@ Theorem C18_nested : C18_nested_statement hardening_args_from.
 Proof. exact (C18_nested_all hardening_args_from). Qed.
 Print Assumptions C18_nested.
 
+(** the same for secure-random, whose on_result_found rebuilds the call with update_call_target(<node>, ...) *)
+Theorem C18_nested_secure_random : C18_nested_statement secure_random_target_from.
+Proof. exact (C18_nested_all secure_random_target_from). Qed.
+Print Assumptions C18_nested_secure_random.
+
 (** Non-vacuity: `x = f(g())` with the inner call reported (semgrep columns): only the inner Call is handed over;
     a location on the keyword `a=1` of `h(a=1)` is dropped. *)
 Definition y_f : str := [102]%N.
